@@ -65,7 +65,7 @@ def check(ctx: Ctx, ev: Evidence) -> list[Finding]:
                 if once(k):
                     ev.inst("C05-R3", k, "ok" if mm is False else "violation", x.site)
                     if mm is not False:
-                        out.append(Finding("C05-R3", f"dest handler | {x.name} in {fn} | before Metadata", f"{x.name} happens although the Metadata PDU has not been received", x.site, witness_of(a, e)))
+                        out.append(Finding("C05-R3", f"dest handler | {x.name} | before Metadata", f"{x.name} (in {fn}) happens although the Metadata PDU has not been received", x.site, witness_of(a, e)))
             if x.name == "vfs.write_data":
                 data, off = x.args[1], x.args[2]
                 ok = data == Sym(("a", "pkt.file_data")) and off == Sym(("a", "pkt.offset"))
